@@ -1,5 +1,13 @@
-EXTRA_IMPORTS = ["Combine"]
-EXTRA["04"] = '''/-- `combine!`: the full statement is FALSE (known findings KF2, KF3: the sink's Pull / Terminate / Error are also sent to members that
+EXTRA_IMPORTS = ["Combine", "MergeFull", "ShareFull"]
+OPS += [("merge", "{α : Type} (n : Nat)", "Merge.machine α n", "MergeFull.merge_safe n s hs", "MergeFull")]
+SHARE = '''/-- `share`: proved for environments in which the source does not deliver from inside one of share's own deliveries
+(`noNestedFanout`, the restriction C12 makes in its own quantifier). -/
+theorem C%s_share_partial {α : Type} :
+    ∀ s, SReachR (Share.machine α) noNestedFanout s → SafeFor %d s :=
+  fun s hs => (ShareFull.share_safe_partial s hs).safeFor %d
+'''
+
+EXTRA["04"] = SHARE % ("04", 4, 4) + '''/-- `combine!`: the full statement is FALSE (known findings KF2, KF3: the sink's Pull / Terminate / Error are also sent to members that
 have ended, and a Pull broadcast continues after a nested disposal; witnesses in `Thm/Counterexamples.lean`). What is proved: those
 messages to non-live members are the ONLY phase-level violations — every member is subscribed exactly once and never after the output
 is over. -/
@@ -7,7 +15,7 @@ theorem C04_combine_partial {α : Type} (n : Nat) :
     ∀ s, SReach (Combine.machine α n) s → ∀ v ∈ s.g.ph.viols, ∃ i p, v = Viol.upNotLive i p :=
   fun s hs => (Combine.combine_safe_partial n s hs).1
 '''
-EXTRA["05"] = '''/- `combine!`: C05 is FALSE for this operator (known finding KF1: an upstream `Error` is counted as a completion; the sink never
+EXTRA["05"] = SHARE % ("05", 5, 5) + '''/- `combine!`: C05 is FALSE for this operator (known finding KF1: an upstream `Error` is counted as a completion; the sink never
 receives it). There is no history class on which the property says anything and holds, hence no `_partial` theorem; the witness is
 `C05_combine_counterexample` in `Thm/Counterexamples.lean`. -/
 '''
